@@ -197,6 +197,12 @@ class Parser:
             if not c.symbolic and b < 0:
                 return float("nan")
         elif not c.symbolic:
+            if isinstance(a, complex) or isinstance(b, complex):
+                # branch cut of the complex power: a base on (or within rounding of) the negative real axis is outside the claim
+                za = complex(a)
+                if za.real <= 0 and abs(za.imag) <= 1e-9 * max(abs(za), 1e-300):
+                    c.dom.require(False)
+                    return float("nan")
             try:
                 r = c.alg.power(a, b)
             except (ZeroDivisionError, OverflowError):
@@ -209,6 +215,12 @@ class Parser:
 
     def func(self, name, a):
         c = self.c
+        if kind_of(a) == "complex" and not c.symbolic:
+            # branch cuts of the complex elementary functions lie on the axes: arguments within rounding of an axis are outside the claim
+            za = complex(a)
+            if min(abs(za.real), abs(za.imag)) <= 1e-9 * max(abs(za), 1e-300):
+                c.dom.require(False)
+                return float("nan")
         if kind_of(a) != "complex":
             x = T.to_real(a.re) if c.symbolic else a
             lo_hi = {
